@@ -345,11 +345,25 @@ def domain(tier):
                        "moves": hist}
 
 
+def huge_domain(tier):
+    """petabyte-scale tiers (capacities beyond 2^53): free space must stay
+    exact, byte for byte"""
+    R = 3000000003
+    for steps in ((7, 21) if tier != "thorough" else (3, 7, 21, 40)):
+        for r2 in (R, R + 5, R - 4):
+            size = steps * min(R, r2) + 1
+            for hist in (["h2c"], ["c2h"], ["h2c", "c2h"]):
+                yield {"engine": "E2", "size": size, "hotrate": R,
+                       "coldrate": r2, "hotcap": 2 ** 53 + size + 5,
+                       "coldcap": 2 ** 54 + 7, "moves": hist}
+
+
 def run(rep, tier, seed):
     rep.rule = RULE
     rep.assumptions = ["moves driven directly on the Buffer (the policy that "
                        "decides when to move is exercised by C05/C07)"]
-    items = common.rotate(list(domain(tier)) + list(overlap_domain(tier)),
+    items = common.rotate(list(domain(tier)) + list(overlap_domain(tier))
+                          + list(huge_domain(tier)),
                           seed)
 
     def work(i, c):
